@@ -272,7 +272,9 @@ def run_scenario(ex, fnode, c, scen):
             continue
         ex.exits[kind] = ex.exits.get(kind, 0) + 1
         # ---- postconditions
-        env_post = S.Env(ex, ex.store, dict(names), this_path, extra)
+        allnames = dict(ex.names)
+        allnames.update(names)     # locals are visible to witnesses; parameters keep priority
+        env_post = S.Env(ex, ex.store, allnames, this_path, extra)
         ex2 = dict(extra)
         ex2['old'] = OldNS(env_pre)
         ex2['exc'] = z3.BoolVal(kind == 'throw')
@@ -292,6 +294,11 @@ def run_scenario(ex, fnode, c, scen):
                           detail='function returned although the contract says it throws')
         elif kind == 'throw' and not c.may_throw:
             ex.oblige('throws', 'nothrow', z3.BoolVal(False), None, props=c.props_for('throws'))
+        if kind == 'return' and c.post_facts:
+            envl = S.Env(ex, ex.store, dict(ex.names), this_path, extra)
+            for e in c.post_facts:
+                ex.assume(S.spec_eval(e, envl, ex2))
+                ex.assumed.add('lemma instance: ' + e)
         S.MODE[0] = 'prove'
         if kind == 'return':
             for fld, tgt in c.binds.items():
